@@ -1096,6 +1096,36 @@ def rule_preproc(ctx):
         yield ob("C03.PREPROC", em.func, "melody.evaluate:%s:inputs" % callee, not probs, "; ".join(probs) if probs else "arguments are the matching components of to_cent_voicing's result", node=c.node)
 
 
+ARGIDENT_MODULES = ("alignment", "key", "multipitch", "onset", "pattern", "tempo", "transcription", "transcription_velocity", "separation")
+
+
+def rule_argident(ctx):
+    """The evaluate() functions without a documented pre-processing hand every annotation argument to the metric
+    functions *as received*: sorting, clipping, de-duplicating, rounding or converting an annotation on the way makes
+    evaluate() disagree with the direct call on exactly the inputs that were "cleaned"."""
+    R = "C03.ARGIDENT"
+    models = eval_models(ctx)
+    n = 0
+    for name in ARGIDENT_MODULES:
+        em = models.get(name)
+        if em is None:
+            continue
+        for c in em.calls:
+            if not c.via_filter:
+                continue
+            callee = tm.callee_name(c.fn)
+            if callee is None or not ctx.program.has_func(callee) or ctx.program.resigned(callee):
+                continue
+            g = ctx.program.func(callee)
+            for pname, a, node in bind_args(g, c):
+                if role_of(pname) is None:
+                    continue
+                n += 1
+                direct = a.op == "param" and role_of(a.a[0]) == role_of(pname)
+                yield ob(R, em.func, "%s.evaluate:%s:%s" % (name, callee.split(".")[-1], pname), direct, "%s receives the caller's %s unchanged" % (callee, a.a[0] if a.op == "param" else "?") if direct else "%s receives %s for %s: the annotation is transformed on its way through evaluate(), so the bundle differs from the direct call" % (callee, tm.show(a, 3), pname), node=c.node)
+    need(n >= 30, R, "only %d annotation arguments found" % n)
+
+
 def rule_preproc_chord(ctx):
     """chord.evaluate's documented pre-processing (shared with C12.PIPELINE)."""
     from . import c12
@@ -1396,6 +1426,7 @@ RULES = [
     ("C03.UNPACKORDER", 180, rule_unpackorder),
     ("C03.PREPROC", 26, rule_preproc),
     ("C03.PREPROC", 20, rule_preproc_chord),
+    ("C03.ARGIDENT", 50, rule_argident),
     ("C03.PARAMLIVE", 49, rule_paramlive),
     ("C03.EMPTYSAFE", 23, rule_emptysafe),
 ]
